@@ -93,7 +93,21 @@ func parseRef(content string, proto int) (tbl map[string]string, ok, silent bool
 			}
 		}
 		if !found {
-			panic("line not in alphabet: " + l)
+			// generated lines of the plain form "aa:bb:cc:dd:ee:ff address" (many-entries files)
+			f := strings.Fields(l)
+			m, merr := net.ParseMAC(f[0])
+			if len(f) != 2 || merr != nil || len(m) != 6 || f[0] != m.String() || strings.Join(f, " ") != l {
+				panic("line not in alphabet: " + l)
+			}
+			ip := net.ParseIP(f[1])
+			switch {
+			case ip == nil:
+				panic("line not in alphabet: " + l)
+			case (ip.To4() != nil) != (proto == 4):
+				ok = false
+			default:
+				tbl[f[0]] = ip.String()
+			}
 		}
 	}
 	return
@@ -494,6 +508,28 @@ func run(r *ev.Run) {
 	}
 	rec(nil)
 	r.Add("files", int64(n))
+	// many entries: N hosts in ascending order plus one line that lists an earlier host again
+	// (the last occurrence wins), for every N up to 40 and three positions of the repeated host
+	for _, proto := range []int{4, 6} {
+		for nHosts := 2; nHosts <= 40; nHosts++ {
+			for _, which := range []int{0, nHosts / 2, nHosts - 1} {
+				var sb strings.Builder
+				for i := 0; i < nHosts; i++ {
+					if proto == 4 {
+						fmt.Fprintf(&sb, "02:00:00:00:0a:%02x 10.0.0.%d\n", i+1, i+1)
+					} else {
+						fmt.Fprintf(&sb, "02:00:00:00:0a:%02x 2001:db8::%x\n", i+1, i+1)
+					}
+				}
+				if proto == 4 {
+					fmt.Fprintf(&sb, "02:00:00:00:0a:%02x 10.0.1.%d\n", which+1, which+1)
+				} else {
+					fmt.Fprintf(&sb, "02:00:00:00:0a:%02x 2001:db8:1::%x\n", which+1, which+1)
+				}
+				evalFile(r, FileCase{proto, strings.TrimSuffix(sb.String(), "\n")})
+			}
+		}
+	}
 	// (b)
 	for _, proto := range []int{4, 6} {
 		proto := proto
